@@ -140,6 +140,41 @@ def run(res, tier, seed, shard, nshards):
 
     with H.ambient((seed, shard, "C04"), res):
         H.in_sim(scen, watchdog=3000)
+    # one message cut into very many fragments (beyond 1024 and beyond 16384), with and without pings strewn in
+    many = [(1100, 0), (1100, 7), (16500, 0), (20000, 501)] if tier == "quick" else [(1025, 0), (1100, 1), (4097, 0), (16385, 0), (16500, 13), (33000, 0), (70000, 997)]
+    for mi, (nfrag, ping_every) in enumerate(many):
+        if mi % nshards == shard:
+            H.in_sim(lambda: many_fragments_case(res, W, rng, nfrag, ping_every), watchdog=900)
+
+
+def many_fragments_case(res, W, rng, nfrag, ping_every):
+    is_text = nfrag % 2 == 0
+    unit = "\u00e9" if is_text else None
+    parts = []
+    body = bytearray()
+    for i in range(nfrag):
+        piece = (unit.encode() if is_text else bytes([i & 0xFF]))
+        body += piece
+        parts.append(R.encode((R.TEXT if is_text else R.BINARY) if i == 0 else R.CONT, piece, fin=1 if i == nfrag - 1 else 0))
+        if ping_every and i % ping_every == ping_every - 1:
+            parts.append(R.encode(R.PING, b"p%d" % i))
+    stream = b"".join(parts) + R.encode(R.BINARY, b"SENT")
+    w, conn, peer = H.connected_ws(after=stream, timeout=5)
+    case = {"gen": "many-fragments", "fragments": nfrag, "ping_every": ping_every, "text": is_text}
+    res.case(("many-fragments", nfrag, ping_every), nontrivial=True)
+    res.count("many_fragment_messages")
+    try:
+        op, data = w.recv_data()
+        op2, data2 = w.recv_data()
+    except Exception as e:  # noqa
+        res.violation("legal-rejected", f"a message of {nfrag} fragments ({'a ping after every %d' % ping_every if ping_every else 'no pings'}): {type(e).__name__}: {e}", case)
+        return
+    exp_op = R.TEXT if is_text else R.BINARY
+    if op != exp_op or bytes(data) != bytes(body) or (op2, bytes(data2)) != (R.BINARY, b"SENT"):
+        n = len(data)
+        res.violation("value-mismatch", f"a message of {nfrag} fragments: delivered opcode {op} with {n} payload bytes (common prefix with what was sent: "
+                      f"{bytes(data) == bytes(body[:n])}), expected opcode {exp_op} with {len(body)} bytes; then {(op2, bytes(data2)[:10])}", case)
+    w.shutdown()
 
 
 def judge(res, W, stream, call, pf, skip, tag, nontrivial, chunk=None):
